@@ -13,7 +13,7 @@ cleanup() { git -C /repo worktree remove --force $wt 2>/dev/null; }
 trap cleanup EXIT
 demo=$(python3 -c "import json;print(json.load(open('$src/meta.json'))['demo_file'])")
 pkgdir=$(python3 -c "import json;print(json.load(open('$src/meta.json'))['demo_package_dir'])")
-demo=$(basename $demo); pkgdir=${pkgdir#/tmp/wt/*/}; pkgdir=${pkgdir#./}
+demo=$(basename $demo); pkgdir=${pkgdir#/tmp/wt/*/}; pkgdir=${pkgdir#/root/scratch/wt/*/}; pkgdir=${pkgdir#./}
 cp $src/$demo $wt/$pkgdir/ || exit 2
 run=$(grep -o 'func Test[A-Za-z0-9_]*' $src/$demo | sed 's/func //' | paste -sd'|')
 echo "== demo on unmodified HEAD"
